@@ -14,7 +14,9 @@ class CSSReader(BaseDocumentDetector, BaseTextStreamReader):
     '''Cascading Stylesheet Document Reader.'''
     URL_PATTERN = r'''url\(\s*(['"]?)(.{1,500}?)(?:\1)\s*\)'''
     IMPORT_URL_PATTERN = r'''@import\s*(?:url\()?['"]?([^\s'")]{1,500}).*?;'''
-    URL_REGEX = re.compile(r'{}|{}'.format(URL_PATTERN, IMPORT_URL_PATTERN))
+    # Function names and at-keywords are not case-sensitive in CSS.
+    URL_REGEX = re.compile(
+        r'{}|{}'.format(URL_PATTERN, IMPORT_URL_PATTERN), re.IGNORECASE)
     BUFFER_SIZE = 1048576
     STREAM_REWIND = 4096
 
